@@ -575,6 +575,10 @@ func (dsc *dataStoreCommand) bitfieldWrite(keyName string, ops []*bitfieldOp) (o
 			expanded := make([]byte, length)
 			copy(expanded, strBytes)
 			strBytes = expanded
+		} else {
+			// the stored bytes are never changed in place: readers that looked the value up
+			// before this command took the lock may still be using them
+			strBytes = append([]byte(nil), strBytes...)
 		}
 		expiration = sk.expiresAt
 	} else {
